@@ -562,6 +562,23 @@ void World::table_check(const std::string& op, int64_t touched)
             report("C18", "C18|" + op + "|" + F + "|playlist-column:title", "playlist " + std::to_string(kv.first) + " title differs");
         if (row->parent_list_id != kv.second.parent)
             report("C18", "C18|" + op + "|" + F + "|playlist-column:parent", "playlist " + std::to_string(kv.first) + " parent differs");
+        if (row->is_persisted != kv.second.persisted)
+            report("C18", "C18|" + op + "|" + F + "|playlist-column:is_persisted", "playlist " + std::to_string(kv.first) + " is_persisted differs from the value written");
+        if (row->is_explicitly_exported != kv.second.exported)
+            report("C18", "C18|" + op + "|" + F + "|playlist-column:is_explicitly_exported",
+                   "playlist " + std::to_string(kv.first) + " is_explicitly_exported differs from the value written");
+        if (rv(row->last_edit_time) != rv(kv.second.edited))
+            report("C18", "C18|" + op + "|" + F + "|playlist-column:last_edit_time",
+                   "playlist " + std::to_string(kv.first) + " last_edit_time reads " + rv(row->last_edit_time) + ", written " + rv(kv.second.edited));
+        {
+            // next_list_id must name the successor in the sibling order (0 for the last)
+            auto& sib = T.order[kv.second.parent];
+            auto it = std::find(sib.begin(), sib.end(), kv.first);
+            int64_t exp_next = (it != sib.end() && it + 1 != sib.end()) ? *(it + 1) : 0;
+            if (it != sib.end() && row->next_list_id != exp_next)
+                report("C18", "C18|" + op + "|" + F + "|playlist-column:next_list_id",
+                       "playlist " + std::to_string(kv.first) + " next_list_id = " + std::to_string(row->next_list_id) + ", expected " + std::to_string(exp_next));
+        }
         std::vector<int64_t> tids;
         Outcome te = call(FaultSpec{}, [&] { tids = et.track_ids(kv.first); });
         if (te.threw)
@@ -739,13 +756,17 @@ bool World::exec_table_op(const Step& s)
         int64_t next = 0;
         if (!sibs.empty() && (arg(1) & 1))
             next = sibs[(size_t)((uint64_t)arg(2) % sibs.size())];
-        v2::playlist_row row{v2::PLAYLIST_ROW_ID_NONE, "pl" + std::to_string(++T.rowuniq), parent, true, next, gen_tp(r, 5), true};
+        v2::playlist_row row{v2::PLAYLIST_ROW_ID_NONE, "pl" + std::to_string(++T.rowuniq), parent, !r.chance(1, 3), next, gen_tp(r, 5), !r.chance(1, 3)};
         int64_t id = 0;
         Outcome o = call(s.fault, [&] { id = pt.add(row); });
         note("p_add under " + std::to_string(parent) + " before " + std::to_string(next) + (o.threw ? " -> threw " + o.exc : " -> id " + std::to_string(id)));
         if (!o.threw)
         {
-            T.lists[id] = {row.title, parent};
+            T.lists[id] = {row.title, parent, row.is_persisted, row.is_explicitly_exported, row.last_edit_time};
+            // database-maintained: a persisted list makes all its ancestors persisted (Engine's own trigger)
+            if (row.is_persisted)
+                for (int64_t a = parent; a && T.lists.count(a); a = T.lists[a].parent)
+                    T.lists[a].persisted = true;
             if (next)
                 sibs.insert(std::find(sibs.begin(), sibs.end(), next), id);
             else
@@ -779,6 +800,15 @@ bool World::exec_table_op(const Step& s)
         }
         else
             row->title = "ren" + std::to_string(++T.rowuniq);
+        // any subset of the other columns changes in the same call (also together with a move)
+        if (arg(1) & 8)
+            row->title = "mv" + std::to_string(++T.rowuniq);
+        if (arg(1) & 16)
+            row->is_persisted = !row->is_persisted;
+        if (arg(1) & 32)
+            row->is_explicitly_exported = !row->is_explicitly_exported;
+        if (arg(1) & 64)
+            row->last_edit_time = gen_tp(r, 6);
         row->parent_list_id = new_parent;
         row->next_list_id = new_next;
         Outcome o = call(s.fault, [&] { pt.update(*row); });
@@ -789,8 +819,32 @@ bool World::exec_table_op(const Step& s)
             auto& m = T.lists[id];
             auto& old = T.order[m.parent];
             old.erase(std::remove(old.begin(), old.end(), id), old.end());
+            bool was_persisted = m.persisted;
+            bool moved = m.parent != new_parent;
             m.parent = new_parent;
             m.title = row->title;
+            m.persisted = row->is_persisted;
+            // database-maintained propagation of isPersisted (Engine's own triggers)
+            if ((!was_persisted && m.persisted) || (moved && m.persisted))
+                for (int64_t a = new_parent; a && T.lists.count(a); a = T.lists[a].parent)
+                    T.lists[a].persisted = true;
+            if (was_persisted && !m.persisted)
+            {
+                std::vector<int64_t> st{id};
+                while (!st.empty())
+                {
+                    int64_t c = st.back();
+                    st.pop_back();
+                    for (auto& kv2 : T.lists)
+                        if (kv2.second.parent == c && kv2.first != id)
+                        {
+                            kv2.second.persisted = false;
+                            st.push_back(kv2.first);
+                        }
+                }
+            }
+            m.exported = row->is_explicitly_exported;
+            m.edited = row->last_edit_time;
             auto& sibs = T.order[new_parent];
             if (new_next)
                 sibs.insert(std::find(sibs.begin(), sibs.end(), new_next), id);
